@@ -590,7 +590,7 @@ def _call_of(node, helpers, cls_helpers):
     return None
 
 
-def inline_helpers(tree, shape):
+def inline_helpers(tree, shape, keep=frozenset()):
     """N1. Returns the list of helper names that were inlined (for the evidence)."""
     pinned_fns = set(shape["functions"])
     inlined = []
@@ -635,12 +635,12 @@ def inline_helpers(tree, shape):
                 return True
         return False
     for name, h in list(helpers.items()):
-        if name in inlined and not referenced(name, False):
+        if name in inlined and not referenced(name, False) and name not in keep:
             tree.body.remove(h.fn)
     for cname, d in cls_helpers_by_class.items():
         cdef = next(c for c in tree.body if isinstance(c, ast.ClassDef) and c.name == cname)
         for name, h in d.items():
-            if name in inlined and not referenced(name, True):
+            if name in inlined and not referenced(name, True) and name not in keep:
                 cdef.body.remove(h.fn)
     return inlined
 
@@ -822,7 +822,7 @@ def split_conditionals(fn):
 
 
 # ---------------------------------------------------------------------------------------- driver
-def normalise(tree, modname, shape_all=None):
+def normalise(tree, modname, shape_all=None, keep=frozenset()):
     """normalise `tree` in place against the pinned shape of module `modname`; returns a log dict"""
     shape_all = shape_all if shape_all is not None else load_shape()
     log = {"inlined": [], "substituted": {}, "constants": [], "conditionals": {}}
@@ -830,7 +830,7 @@ def normalise(tree, modname, shape_all=None):
         return log
     shape = shape_all[modname]
     log["constants"] = inline_constants(tree, shape)
-    log["inlined"] = sorted(set(inline_helpers(tree, shape)))
+    log["inlined"] = sorted(set(inline_helpers(tree, shape, keep)))
     for q, fn in functions_of(tree).items():
         pinned = shape["functions"].get(q)
         if pinned is None:
